@@ -29,7 +29,7 @@ func init() {
 	register(&mc.Check{
 		ID:    "C10",
 		Level: "model_checking",
-		Rule: "Part A: all sequences of exactly d operations (d=4 quick, 5 thorough; every shorter sequence is a prefix of one) over SetPrefix{BIN,TEMPLATE,STATICLOAD,STATE,USERDATA}, SetSession{'',ss,tt}, SetLanguage{nil,nor,swa}, SetLock(TEMPLATE,off|on), seal=SetLock(0,true|false), Put{foo,foob,Pfoo}x{'text',00ff}, Get{foo,foob,Pfoo}, Dump{'',fo} drained, " +
+		Rule: "Part A: all sequences of exactly d operations (d=4 quick, 5 thorough; every shorter sequence is a prefix of one) over SetPrefix{BIN,TEMPLATE,STATICLOAD,STATE,USERDATA}, SetSession{'',ss,tt}, SetLanguage{nil,nor,eng}, SetLock(TEMPLATE,off|on), seal=SetLock(0,true|false), Put{foo,foob,Pfoo}x{'text',00ff}, Get{foo,foob,Pfoo}, Dump{'',fo} drained, " +
 			"each applied to mem, fs (text) and fs (binary keys) on fresh storage and stepped in lockstep with a reference map keyed by (type, session if sessioned, key, language if translated); only reduction: a context setter that would not change the reference context is not generated. " +
 			"After a refused Put the content is read back through a second handle (fs); after every sequence the lock state is probed (one Put per read-only type) and every stored or addressed entry, its default-language and its other-language variant are read back (second handle on fs, same handle on mem). " +
 			"Part B: explicit-state search over reference states to depth D (7 quick, 8 thorough): each state is reached once by its shortest operation path on fresh backends, all 26 operations are applied and checked, and the raw backend state (handle context by reflection + directory/map content) is read back after every transition and compared with the raw state of the canonical representative; a mismatch is never a verdict: it is counted and the continuations below it are run statelessly (bounded; none occurs on the unchanged tree). " +
@@ -50,7 +50,7 @@ func init() {
 var c10Keys = []string{"foo", "foob", "Pfoo"}
 var c10Vals = []string{"text", "\x00\xff"}
 var c10Sessions = []string{"", "ss", "tt"}
-var c10Langs = []string{"", "nor", "swa"}
+var c10Langs = []string{"", "nor", "eng"} // eng is the library's default language: a language like any other for the store
 
 func c10Alphabet() []ref.KVOp {
 	var a []ref.KVOp
